@@ -910,7 +910,6 @@ func c11Suggest(p *Prog, r *Report) {
 	}
 }
 
-
 // c11Progress: a round of the override / relax fix-point loop that patches nothing re-resolves the
 // same manifest, finds the same vulnerabilities and repeats forever. Necessary condition of
 // termination, decided path-sensitively over boolean flags: from the start of a round, the next
